@@ -494,7 +494,7 @@ def load_known():
 def replay(pid, payload):
     """run the concrete replay of a counterexample against the real library in a fresh
     /venv/bin/python process; returns dict with 'violates' (bool) and details"""
-    d = os.path.join(ROOT, "replays", pid)
+    d = os.path.join(os.environ.get("VERIF_REPLAY_DIR") or os.path.join(ROOT, "replays"), pid)
     os.makedirs(d, exist_ok=True)
     h = hashlib.sha256(json.dumps(payload, sort_keys=True, default=str).encode()).hexdigest()[:12]
     path = os.path.join(d, "%s.json" % h)
@@ -613,8 +613,11 @@ def finish(chk, level="model_checking"):
         "violations": len(violations),
     }
     ev["coverage"].update(chk.extra)
-    os.makedirs(os.path.join(ROOT, "evidence"), exist_ok=True)
-    with open(os.path.join(ROOT, "evidence", chk.pid + ".json"), "w") as f:
+    # (VERIF_EVIDENCE_DIR: only tools_mutants.py sets it, so that runs against a scratch copy with
+    # a seeded change never touch the evidence of the real tree)
+    evdir = os.environ.get("VERIF_EVIDENCE_DIR") or os.path.join(ROOT, "evidence")
+    os.makedirs(evdir, exist_ok=True)
+    with open(os.path.join(evdir, chk.pid + ".json"), "w") as f:
         json.dump(ev, f, indent=1, default=str)
     for key, (hit, path) in sorted(known_printed.items()):
         print("KNOWN-FINDING: property=%s %s %s (replay %s)" % (chk.pid, key, hit.get("what", ""), path))
